@@ -195,7 +195,11 @@ func VSeqStep(l List[int], pre []int, ext VExt) []int {
 
 // VSeqHistory: D operations in a row from a freshly constructed list.
 func VSeqHistory(l List[int], ext VExt) {
-	var seq []int
+	VSeqHistoryFrom(l, nil, ext)
+}
+
+// VSeqHistoryFrom: the same from a list constructed with initial values.
+func VSeqHistoryFrom(l List[int], seq []int, ext VExt) {
 	D := v.CfgOr("D", 3)
 	for i := 0; i < D; i++ {
 		seq = VSeqStep(l, seq, ext)
